@@ -410,6 +410,59 @@ class Gen:
             op["kw"] = self.gen_kw()
         return self.pick_vtype(op)
 
+    def gen_chain_transfer(self, view, intent):
+        """A transfer within one plate column whose steps overlap: a well is the destination of one step and the
+        source of another. Executed in the order of the records (one tip at a time) the first step is refused;
+        any other order of the bookkeeping (all removals first, all additions first) would let it through.
+        intent: "reject.overflow" (A->B, B->C with B too full to receive first) or
+                "reject.underflow" (B->A, C->B with B too empty to give first). Returns None when no plate fits."""
+        rng = self.rng
+        step = {"quarter": 0.25, "centi": 0.01}.get(self.regime, 0.01)
+        cands = [i for i, g in enumerate(self.geos) if not g.trough and g.idrows >= 3]
+        rng.shuffle(cands)
+        for li in cands:
+            geo = self.geos[li]
+            cur = self.vols(view, li)
+            cols = list(range(geo.cols))
+            rng.shuffle(cols)
+            for c in cols[:4]:
+                for _ in range(6):
+                    ra, rb, rc = sorted(rng.sample(range(geo.idrows), 3))
+                    if intent == "reject.overflow":
+                        w0, w1, w2 = (ra, c), (rb, c), (rc, c)  # w0 -> w1 (v), then w1 -> w2 (v2)
+                        v2max = min(cur[w1] - geo.vmin, geo.vmax - cur[w2], self.wl_max)
+                        if v2max < 2 * step:
+                            continue
+                        v2 = snap_down(rng.uniform(2 * step, v2max), self.regime)
+                        v = snap_down(geo.vmax - cur[w1], self.regime) + step
+                        if not (v <= v2 - step / 2 + (geo.vmax - cur[w1]) and v <= cur[w0] - geo.vmin and 0 < v <= self.wl_max
+                                and cur[w1] + v > geo.vmax and v2 >= step):
+                            continue
+                        pairs = [(w0, w1, v), (w1, w2, v2)]
+                    else:
+                        w2, w1, w0 = (ra, c), (rb, c), (rc, c)  # w1 -> w2 (v2), then w0 -> w1 (v)
+                        vmax_ = min(cur[w0] - geo.vmin, geo.vmax - cur[w1], self.wl_max)
+                        if vmax_ < 2 * step:
+                            continue
+                        v = snap_down(rng.uniform(2 * step, vmax_), self.regime)
+                        v2 = snap_down(max(cur[w1] - geo.vmin, 0.0), self.regime) + step
+                        if not (v2 <= (cur[w1] - geo.vmin) + v - step / 2 and v2 <= geo.vmax - cur[w2] and 0 < v2 <= self.wl_max
+                                and cur[w1] - v2 < geo.vmin and v >= step):
+                            continue
+                        pairs = [(w1, w2, v2), (w0, w1, v)]
+                    if rng.random() < 0.3:
+                        pairs.reverse()  # the listing order does not matter: steps are ordered by row
+                    op = {"op": "transfer", "src": li, "dst": li,
+                          "sw": [well_id(*p[0]) for p in pairs], "dw": [well_id(*p[1]) for p in pairs],
+                          "volumes": enc([float(p[2]) for p in pairs]), "label": rng.choice(LABELS),
+                          "intent": f"{intent}@chain"}
+                    if rng.random() < 0.7:
+                        op["wash"] = rng.choice(WASHES)
+                    if rng.random() < 0.4:
+                        op["part"] = rng.choice(PARTS)
+                    return op
+        return None
+
     # ------------------------------------------------------------------ distribute
     def gen_distribute(self, view, intent="ok"):
         rng = self.rng
